@@ -348,7 +348,9 @@ func c06triple(r *Rng, tr *Trace) (minP, maxP, initP *big.Int) {
 func TestC06(t *testing.T) {
 	tr := OpenTrace(t, "c06.trace")
 	defer tr.Close(t)
-	rng := NewRng(seed())
+	// NewRng(k) starts the splitmix64 counter at k·γ+c, so the streams of seeds k and k+d are the same stream shifted by
+	// d draws (and re-synchronise after a few variable-length cases). Seeding with a mixed value makes seeds independent.
+	rng := NewRng(NewRng(seed()).U64())
 	bi := func(s string) *big.Int {
 		v, ok := new(big.Int).SetString(s, 10)
 		if !ok {
